@@ -53,6 +53,10 @@ theorem H_add (a b : Nat) : H (a + b) = H a ++ H b := by
   simp [H, List.replicate_append_replicate]
 theorem H_congr {a b : Nat} (h : a = b) : H a = H b := by rw [h]
 theorem H_eq_cons {a b : Nat} (h : b = a + 1) : Slot.hole :: H a = H b := by rw [h]; simp
+theorem H_cons_append {a b : Nat} (X : List Slot) (h : b = a + 1) : Slot.hole :: (H a ++ X) = H b ++ X := by
+  rw [h]; simp
+theorem H_append_cons {a b : Nat} (X : List Slot) (h : b = a + 1) : H a ++ Slot.hole :: X = H b ++ X := by
+  rw [h]; simp
 
 theorem Vec.ext' {v : Vec} {s : List Slot} (h : v.slots = s) :
     v = { v with slots := s } := by cases v; simp_all
@@ -215,6 +219,56 @@ theorem copy_one_back {v : Vec} {A B T : List Slot} {x : Slot} {src dst : Nat}
     all_goals first
       | omega | rfl | (congr 1; omega) | (apply some_getD_eq <;> omega)
       | (simp; omega) | simp | skip
+
+/-- one element jumps forward over `B` into a hole: `A ++ x :: B ++ hole :: T` → `A ++ hole :: B ++ x :: T` -/
+theorem copy_one_fwd {v : Vec} {A B T : List Slot} {x : Slot} {src dst : Nat}
+    (hs : v.slots = A ++ [x] ++ B ++ [Slot.hole] ++ T) (hsrc : src = A.length) (hdst : dst = A.length + 1 + B.length) :
+    copy v src dst 1 = .ok { v with slots := A ++ [Slot.hole] ++ B ++ [x] ++ T } := by
+  subst hsrc hdst
+  unfold copy
+  rw [if_neg (by omega)]
+  have hcap : v.cap = A.length + 1 + B.length + 1 + T.length := by simp [Vec.cap, hs]; omega
+  rw [if_neg (by omega), if_neg (by omega)]
+  rw [copyClobbers_none_of]
+  · simp only
+    congr 2
+    apply List.ext_getElem?
+    intro j
+    simp only [getElem?_map_range, copySlot, hcap, hs, List.getD_eq_getElem?_getD, get5, single_get, List.length_singleton]
+    repeat' split
+    all_goals first
+      | omega | rfl | (congr 1; omega) | (apply some_getD_eq <;> omega)
+      | (simp; omega) | simp | skip
+  · intro j hj
+    simp only [hs, get5, single_get, List.length_singleton]
+    repeat' split
+    all_goals first
+      | omega | rfl | (congr 1; omega) | (apply some_getD_eq <;> omega)
+      | (simp; omega) | simp | skip
+
+/-- copying a slot onto itself changes nothing -/
+theorem copy_self {v : Vec} {i : Nat} (h : i < v.cap) : copy v i i 1 = .ok v := by
+  unfold copy
+  rw [if_neg (by omega), if_neg (by omega), if_neg (by omega)]
+  rw [copyClobbers_none_of]
+  · simp only
+    congr 1
+    refine (Vec.ext' ?_).symm
+    apply List.ext_getElem?
+    intro j
+    simp only [getElem?_map_range, copySlot, List.getD_eq_getElem?_getD, Vec.cap]
+    by_cases hj : j < v.slots.length
+    · simp only [hj, ↓reduceIte]
+      by_cases hij : i ≤ j ∧ j < i + 1
+      · have : j = i := by omega
+        subst this
+        simp [hj]
+      · simp only [hij, ↓reduceIte]
+        simp [hj]
+    · simp only [hj, ↓reduceIte]
+      simp at hj; simp [hj]
+  · intro k hk
+    left; omega
 
 theorem copyNonoverlapping_back {v : Vec} {A M T : List Slot} {k src dst n : Nat} (hs : v.slots = A ++ H k ++ M ++ T)
     (hsrc : src = A.length + k) (hdst : dst = A.length) (hn : n = M.length) (hk : M.length ≤ k) :
